@@ -27,7 +27,7 @@ RULE = ('Histories of 1..5 operations on one FitInfo: keep(sel) with the six sel
 ASSUMPTIONS = ['FitInfo.sort order (numpy argsort, NaN last) is taken as the ranking', 'selector thresholds equal to an attained value are not judged',
                "('A', v) is used with an arbitrary v, as in the documentation"]
 PROBES = ['tie_in_chi2', 'nan_present', 'inf_present', 'zero_length_result', 'kept_zero', 'kept_all', 'kept_some', 'equal_threshold_skipped',
-          'hop_pickle', 'hop_file', 'hop_consumer', 'family_real', 'composition_checked', 'n_beyond_total']
+          'hop_pickle', 'hop_file', 'hop_consumer', 'family_real', 'composition_checked', 'n_beyond_total', 'flags_edited_in_place', 'rejected_flag_assignment']
 
 
 def budgets(tier):
@@ -70,8 +70,12 @@ def generate(rng, tier, idx):
         sc['with_fluxes'] = rng.random() < 0.5
     steps = []
     for _ in range(rng.randint(1, 5)):
-        op = rng.choice(['keep', 'keep', 'keep', 'pickle', 'file'] + (['consumer'] if real else []))
+        op = rng.choice(['keep', 'keep', 'keep', 'keep', 'pickle', 'file', 'flags', 'bad_assign'] + (['consumer'] if real else []))
         st = {'op': op}
+        if op == 'flags':
+            # the user edits the flags of the result's Source IN PLACE between two selections
+            st['k'] = rng.randrange(12)
+            st['v'] = rng.choice([0, 1, 2, 3, 4, 9])
         if op in ('keep', 'consumer'):
             st['sel'] = _gen_sel(rng)
         steps.append(st)
@@ -215,6 +219,25 @@ def _execute(sc, sim, out):
 
     for i, st in enumerate(sc['steps']):
         op = st['op']
+        if op == 'flags':
+            v = np.asarray(info.source.valid)
+            kk = st['k'] % len(v)
+            trial = v.copy()
+            trial[kk] = st['v']
+            if n_data_of(trial) >= 1:
+                info.source.valid[kk] = st['v']            # in place, through the array
+                nd = n_data_of(info.source.valid)
+                out.probe('flags_edited_in_place')
+            trace.append((op,))
+            continue
+        if op == 'bad_assign':
+            try:
+                info.source.valid = [1] * (len(info.source.valid) - 1) + [7]       # rejected: 7 is not a flag
+            except Exception:
+                out.probe('rejected_flag_assignment')
+            nd = n_data_of(info.source.valid)
+            trace.append((op,))
+            continue
         if op == 'keep':
             sel = tuple(st['sel'])
             want = ref_select(R['chi2'][:k], sel, nd)
@@ -290,7 +313,7 @@ def _execute(sc, sim, out):
                     sel, L[:1] + L[1:][:3], want, nd), key='consumer')
                 break
             trace.append((op, sel[0], 0 if want == 0 else (1 if want == k else 2)))
-    if not out.violations and counts_on_original:
+    if not out.violations and counts_on_original and not any(st['op'] in ('flags', 'bad_assign') for st in sc['steps']):
         # composition: the end state equals one selection with the tightest selector evaluated on the original
         out.compared('composition')
         out.probe('composition_checked')
